@@ -725,6 +725,15 @@ func (b *BFT) SafeNode(msg *Message) lib.ErrorI {
 		b.log.Infof("Proposal %s satisfied the safe node predicate with SAFETY", lib.BytesToTruncatedString(b.HighQC.BlockHash))
 		return nil // SAFETY (SAME PROPOSAL AS LOCKED)
 	}
+	// rounds restart at 0 when the root height advances (a NEW_COMMITTEE reset keeps locks),
+	// so locks are ordered by (root height, round): a round number alone cannot compare across root heights
+	if msg.HighQc.Header.RootHeight != b.HighQC.Header.RootHeight {
+		if msg.HighQc.Header.RootHeight > b.HighQC.Header.RootHeight {
+			b.log.Infof("Proposal %s satisfied the safe node predicate with LIVENESS", lib.BytesToTruncatedString(b.HighQC.BlockHash))
+			return nil // LIVENESS (LOCK FROM A NEWER ROOT HEIGHT THAN LOCKED)
+		}
+		return ErrFailedSafeNodePredicate()
+	}
 	// if the view of the Locked proposal is older than the Leader's message
 	if msg.HighQc.Header.Round > b.HighQC.Header.Round {
 		b.log.Infof("Proposal %s satisfied the safe node predicate with LIVENESS", lib.BytesToTruncatedString(b.HighQC.BlockHash))
